@@ -55,6 +55,6 @@ SeedVal5 ==
     edges |-> << R("read", 3, 6, 0), R("write", 3, 4, 0) >> ]
 
 MCSeedsSmall == {SeedConv}
-MCSeedsQuick == {SeedConv, SeedImpl5, SeedVal5}
+MCSeedsQuick == {SeedConv, SeedImpl5}
 MCSeeds == {SeedImpl, SeedVal, SeedConv}
 =============================================================================
